@@ -701,9 +701,24 @@ def _reaches(mods, a, b):
     return b in reachable(mods, a)
 
 
-def make_negative(rng, mods, kind):
+def redefines_made(mods):
+    """Some module defines rules under the local name of an import whose predicate the
+    exporting file makes with a functor (`Made := F(K: V)`)."""
+    idx = index_of(mods)
+    for m in mods:
+        heads = set(r['pred'] for r in m['rules'])
+        for imp in m['imports']:
+            j = idx.get(imp['file'])
+            if j is not None and local_of(imp) in heads and \
+                    any(f['name'] == imp['pred'] for f in mods[j].get('functors', [])):
+                return True
+    return False
+
+
+def make_negative(rng, mods, kind, avoid_made=False):
     """Mutated deep copy of a valid tree that must be rejected; -> (mods, variant) or
-    (None, why)."""
+    (None, why).  avoid_made: `redefine` never picks an import of a functor-made
+    predicate (known finding of C12)."""
     mods = copy.deepcopy(mods)
     n = len(mods) - 1
     idx = index_of(mods)
@@ -753,6 +768,9 @@ def make_negative(rng, mods, kind):
         cands = [i for i in range(0, n + 1) if mods[i]['imports']]
         i = rng.choice(cands)
         imp = rng.choice(mods[i]['imports'])
+        if avoid_made and any(f['name'] == imp['pred']
+                              for f in mods[idx[imp['file']]].get('functors', [])):
+            return None, 'redefine_of_functor_made_import'
         sig = mods[idx[imp['file']]]['sig'].get(imp['pred'])
         g = gen.Gen(rng)
         head = tuple((f, g.lit_of(t)) for f, t in sig['fields'])
@@ -763,5 +781,7 @@ def make_negative(rng, mods, kind):
         else:
             mods[i]['rules'].append(mk_rule(local_of(imp), head, (
                 ('cmp', '<', ('lit', 1), ('lit', 2)),), value=val))
+        if any(f['name'] == imp['pred'] for f in mods[idx[imp['file']]].get('functors', [])):
+            v += '_of_made_predicate'
         return mods, v + ('_in_main' if i == 0 else '_in_module')
     raise ValueError(kind)
